@@ -794,3 +794,21 @@ def model_op(case, atol, hints, hook):
     op = fl.find_op(case, atol, tuple(norm_hints(hints, n)), hook)
     op["axis"] = [None if a is None else int(a) % n for a in op.get("axis", [None, None, None])]
     return op
+
+
+# ------------------------------------------------------------------ atoms stored outside the cell
+
+def lattice_shifts(rng, n, max_cells=2, share=0.6):
+    """per-atom integer multipliers of the cell vectors, each component in -max_cells..max_cells, zero for ~40 % of the atoms"""
+    return [[rng.randint(-max_cells, max_cells) for _ in range(3)] if rng.random() < share else [0, 0, 0] for _ in range(n)]
+
+
+def unwrap(case, rng, max_cells=2, shifts=None):
+    """the SAME crystal with its atoms stored in other cells: atom i is moved by the lattice vector shifts[i] . cell.
+    The occurrence set (and so the planted keys) does not change (Occ S = Occ (wrapped S))."""
+    cf = np.array(case["cell"], dtype=float)
+    shifts = shifts if shifts is not None else lattice_shifts(rng, len(case["elems"]), max_cells)
+    out = dict(case)
+    out["pos"] = (np.array(case["pos"], dtype=float) + np.array(shifts, dtype=float).dot(cf)).tolist()
+    out["info"] = dict(case["info"], stored="unwrapped(+-%d cells)" % max_cells)
+    return out
